@@ -354,6 +354,13 @@ class Engine:
 			st.env[name] = ts.make(name, st, self) if isinstance(ts, TypeSpec) else ts
 			if fi.cython and isinstance(st.env[name], SInt) and st.env[name].ctype is not None:
 				st.ctypes[name] = st.env[name].ctype
+		if args.vararg is not None and args.vararg.arg not in st.env:
+			st.env[args.vararg.arg] = types.get(args.vararg.arg, ())
+		if args.kwarg is not None and args.kwarg.arg not in st.env:
+			kwv = types.get(args.kwarg.arg, {})
+			r_ = Ref('dict')
+			st.heap[r_.addr] = dict(kwv)
+			st.env[args.kwarg.arg] = r_
 		for g, ts in c.ghost.items():
 			st.env[g] = ts.make(g, st, self) if isinstance(ts, TypeSpec) else ts
 		for k_, h_ in self.lib.items():
@@ -1840,6 +1847,8 @@ class Engine:
 			yield from h(self, st, args if self_val is None else [self_val] + list(args), kwargs, node)
 			return
 		fi = self.repo.funcinfo(qualname)
+		if self_val is None and fi.cls is not None and any(ast.unparse(d) == 'classmethod' for d in fi.node.decorator_list):
+			self_val = ClassRef(qualname.rsplit('.', 1)[0])
 		if c is None or c.inline:
 			if c is None and qualname not in self.registry.inline:
 				raise Unsupported(f'call of {qualname} which has neither a contract nor an inline mark (line {node.lineno})')
@@ -1965,6 +1974,8 @@ class Engine:
 			st.assume(mk_not(cond))
 		if not self.feasible(st):
 			return
+		for g_, v_ in c.hints.get('sets_ghost', {}).items():
+			st.ghosts[g_] = v_
 		# constructor contracts: the fields __init__ creates
 		if c.self_fields and isinstance(callee_env.get('self'), Ref):
 			sref = callee_env['self']
